@@ -57,6 +57,16 @@ def _writers(ctx, attr):
 
 
 def check(ctx, rep):
+    # the list of traps that are polled is refreshed from `enabled` before every statement's event check, so that ON / OFF take
+    # effect with the next statement
+    ps = ctx.fn(INTERP + ':Interpreter.parse')
+    loops = [w for w in own_nodes(ps) if isinstance(w, ast.While)]
+    ref = [c for c in own_nodes(ps) if isinstance(c, ast.Call) and norm(c) == 'self._queues.set_basic_event_handlers(self._basic_events.enabled)']
+    chk = [c for c in own_nodes(ps) if isinstance(c, ast.Call) and norm(c.func) == 'self._queues.check_events']
+    inside = len(loops) >= 1 and len(ref) == 1 and len(chk) == 1 and any(x is ref[0] for x in ast.walk(loops[0])) and any(x is chk[0] for x in ast.walk(loops[0]))
+    rep.ob('occurrence.polled-set-refreshed-per-statement', 'Interpreter.parse refreshes the polled traps from `enabled` inside the statement loop, before the event check',
+           inside and (ref[0].lineno, ref[0].col_offset) < (chk[0].lineno, chk[0].col_offset),
+           'the polled set is a snapshot taken before the loop: a key pressed after KEY(n) OFF is still recorded and delivered at the next ON', ctx.where(ps))
     from ..optargs import check as _optargs
     _optargs(ctx, rep, ['pcbasic/basic/basicevents.py', 'pcbasic/basic/inputs/'], 5)
     hb = ctx.fn(INTERP + ':Interpreter.handle_basic_events')
@@ -219,6 +229,21 @@ def _variants0(ctx):
 
 def variants(ctx):
     return _variants0(ctx) + [
+        mu.Variant('polled-traps-refreshed-once-per-parse', 'break', INTERP,
+                   lambda tree: _hoist_refresh(mu.find_def(tree, 'Interpreter.parse')), expect='occurrence.polled-set-refreshed-per-statement'),
         mu.Variant('key-number-defaulted-by-truthiness', 'break', 'pcbasic/basic/basicevents.py',
                    lambda tree: (lambda fn: mu.insert_before(fn, lambda st: isinstance(st, ast.Expr) and norm(st.value).startswith('error.range_check(1, len(self.key)'), 'keynum = keynum or 1'))(mu.find_def(tree, 'BasicEvents.on_event_gosub_')), expect='arguments.zero-is-not-omitted'),
     ]
+
+
+def _hoist_refresh(fn):
+    lp = [w for w in fn.body if isinstance(w, ast.While)]
+    if len(lp) != 1:
+        return False
+    st = [x for x in lp[0].body if 'set_basic_event_handlers' in norm(x)]
+    if len(st) != 1:
+        return False
+    lp[0].body.remove(st[0])
+    fn.body.insert(fn.body.index(lp[0]), st[0])
+    return True
+
